@@ -83,7 +83,7 @@ func ruleDispatchOrder(w *core.World, r *core.Report, fname, cons string) {
 	bad := ""
 	var badPos token.Pos
 	n := 0
-	okEnum := core.EnumPathsN(f.Blocks[0], 0, 200000, 2, func(p *core.Path) {
+	okEnum := core.EnumPathsN(f.Blocks[0], 0, 200000, core.Unroll, func(p *core.Path) {
 		if bad != "" {
 			return
 		}
